@@ -174,7 +174,8 @@ class Macro(Element):
             if value is None:
                 continue
             if isinstance(value, Node):
-                value = '%s' % str(value)
+                # a plain string: str() of a text node is the node itself
+                value = str.__str__(str(value))
             attrs[name] = value
         return attrs
 
